@@ -104,15 +104,18 @@ def handler : Handler S where
       match (kv rest "algos").bind parseAlgos, kvInt rest "max", (kv rest "ct").bind unhex with
       | some algos, some mx, some ct =>
         let cfg := (ServerConfig.mk algos mx).eff
-        let customNames : Option (List String) :=
+        let customNames : Option (List (String × String)) :=
           match kv rest "custom" with
           | none => some []
           | some "-" => some []
-          | some cs => (cs.splitOn ",").mapM unhex
+          | some cs => (cs.splitOn ",").mapM (fun tok =>
+              match tok.splitOn "/" with
+              | [h, "xor"] => (unhex h).map (fun n => (n, "xor"))
+              | [h, "nil"] => (unhex h).map (fun n => (n, passThroughId))
+              | _ => none)
         match customNames with
         | none => (s, ["obs bad-op"])
-        | some names =>
-        let custom := names.map (fun n => (n, "xor"))
+        | some custom =>
         -- ToClient fails iff a compressed type has no writer
         let ok := !isCompressed ct || (assoc Gen.Compression.writers ct).isSome
         -- a new server in the same process: it sees what earlier constructions left behind, and leaves its own trace
@@ -120,6 +123,15 @@ def handler : Handler S where
                   cur := none },
          [if ok then "obs cfg client=ok" else "obs cfg client=err"])
       | _, _, _ => (s, ["obs bad-op"])
+    | "conc" :: rest =>
+      -- overlapping requests through a default server: each is a round trip within the (default) limit, so every
+      -- handler reads exactly its own client's bytes (`C16_roundtrip_partial` / `C16_identity_partial` per request);
+      -- the interleaving itself is outside the model (monitored)
+      match kvNat rest "total", (kv rest "ct").bind unhex with
+      | some total, some ct =>
+        if Gen.Compression.clientTypes.contains ct then ({ s with cur := none }, [s!"obs conc total={total} exact={total}"])
+        else (s, ["obs bad-op"])
+      | _, _ => (s, ["obs bad-op"])
     | "req" :: rest =>
       match kv rest "mode", (kv rest "hdr").bind unhex, (kv rest "body").bind mkBody, kvNat rest "wire", parseDec rest with
       | some mode, some hdr, some b, some wire, some decIn =>
@@ -159,6 +171,11 @@ def handler : Handler S where
       | some e, some w => { s with implEnc := e, implWire := w }
       | _, _ => { s with fails := "sig=C16/harness/unparsable-sent" :: s.fails }
     | _ :: "cfg" :: _ => s
+    | _ :: "conc" :: rest =>
+      match kvNat rest "total", kvNat rest "exact" with
+      | some t, some e =>
+        if t = e then s else { s with fails := s!"sig=C16/concurrency/not-every-handler-read-its-own-body total={t} exact={e}" :: s.fails }
+      | _, _ => { s with fails := "sig=C16/harness/unparsable-conc" :: s.fails }
     | _ :: kind :: rest =>
       match s.cur with
       | none => { s with fails := "sig=C16/harness/outcome-without-request" :: s.fails }
